@@ -306,7 +306,12 @@ def run(tier="quick", seed=0, repo="/repo"):
         _enumerate(rec, tier, seed, bound)
     except O.Abort:
         bound["text"] = bound.get("text", "") + " [enumeration stopped early: calls into the real code did not terminate]"
-    return rec.result(RULE, bound.get("text", "stopped before the bound was fixed"), exhaustive=False, section_seconds=bound.get("timing", {}))
+    kinds = {}
+    for f in rec.nontrivial:
+        k = f[0] if isinstance(f, tuple) else "other"
+        kinds[k] = kinds.get(k, 0) + 1
+    return rec.result(RULE, bound.get("text", "stopped before the bound was fixed"), exhaustive=False, section_seconds=bound.get("timing", {}),
+                      nontrivial_by_kind=kinds)
 
 
 def _enumerate(rec, tier, seed, bound_out):
@@ -324,9 +329,9 @@ def _enumerate(rec, tier, seed, bound_out):
     ms = [1, 2, 3] if quick else [1, 2, 3, 4]
     span = 12 if quick else 20
     n0 = 5
-    n_run = range(2, 9) if quick else range(2, 12)
+    n_run = range(2, 10) if quick else range(2, 12)
     ns_b = [5, 7, 8] if quick else [4, 5, 6, 7, 8, 9, 10]
-    ns_d = [2, 3, 4, 5, 6, 8] if quick else list(range(2, 12))
+    ns_d = [2, 3, 4, 5, 6, 7, 8] if quick else list(range(2, 11))
     bound_out["text"] = (f"inner: start in (0,1,3), length <= {span}, m <= {5 if quick else 8}; greedy kernel: all <=3-subsets of sub-intervals (length >= 3) of "
                          f"[0,{n0}] + random systems; run: table scores n<={max(n_run)} with m in {ms}, M in 2m..n+2, g in {gs}; built-in n in {ns_b}, p<=2; "
                          f"detector: n in {ns_d}")
@@ -443,7 +448,7 @@ def _enumerate(rec, tier, seed, bound_out):
                                     results.append((inf2["threshold"], inf2["anomalies"]))
                             check_monotone(rec, results, dict(base, threshold_scale=None, scales=[d["threshold_scale"] for d in variants]),
                                            "CircularBinarySegmentation.predict")
-                            for level in ((0.5,) if quick else (0.5, 0.2, None)):
+                            for level in ((0.5,) if quick else (0.5, None)):
                                 d = dict(base, threshold_scale=None, level=level)
                                 if (n + m + M) % 3 == 0 and n > 2 * m:
                                     d["Xfit"] = O.gen_data(rng, n + 1, p, "none")
